@@ -1442,3 +1442,11 @@ M('C11', 'steepest descent caches the gradient before the projection', 'odl/solv
         grad(x, out=grad_x)
 
         if projection is not None:""", 'steepest_descent')
+M('C16', 'adjoint resize skips the fold-back when the total size does not shrink', 'odl/util/numerics.py',
+  "        if pad_mode == 'constant':\n            # Skip the padding helper\n            _assign_intersection(out, arr, offset)",
+  "        if pad_mode == 'constant' or arr.size <= out.size:\n            _assign_intersection(out, arr, offset)",
+  'adjoint,3x4->5x2')
+M('C16', 'offset sign follows the total size', 'odl/discr/discr_ops.py',
+  "    diff_l = np.abs(ran.grid.min() - dom.grid.min())",
+  "    small, large = (dom, ran) if dom.size <= ran.size else (ran, dom)\n    diff_l = small.grid.min() - large.grid.min()",
+  'C16-R4b')
